@@ -129,6 +129,7 @@ class Explorer:
         self.fp_grew = False
         self.abs_cache = {}       # tree digest -> abs json key
         self.use_ample = True
+        self.shared_tmp = set()   # tmp paths that more than one thread was seen to use
         self.shared = None        # shared visited table (parallel exploration of ONE scenario)
         self.wid, self._tok, self.n_visited = 0, 0, 0
         install_det_names()
@@ -210,8 +211,20 @@ class Explorer:
                 return {("lock", tok[1])}
             return set()
 
+        tmp_touch = {}
+
         def before(op, token, n):
             if op == "f.close":
+                return
+            # a staged tmp file is local to its thread - unless the code makes two threads use
+            # the SAME tmp path; then its operations become scheduling points as well
+            if token and token[0][0] == "tmp":
+                me = sched.current()
+                rel = os.path.relpath(ctx.cur_paths[0], self.root)
+                if me is not None:
+                    tmp_touch.setdefault(rel, set()).add(me.tid)
+                if rel in self.shared_tmp:
+                    S.yield_point(("fs", op, token))
                 return
             if tokens.is_shared(token):
                 if op == "flock":
@@ -449,6 +462,10 @@ class Explorer:
             if tag_start is not None and removal is not None:
                 facts[tid] = "object_removed_before_store_tagging" if removal < tag_start \
                     else "object_removed_after_store_tagging"
+        for rel, who in tmp_touch.items():
+            if len(who) > 1 and rel not in self.shared_tmp:
+                self.shared_tmp.add(rel)
+                self.fp_grew = True          # explore again with this path as a shared object
         rec = {"outcome": outcome, "results": results, "final": final_abs, "junk": junk,
                "facts": facts, "raw": raw if record else None,
                "locks": locks, "schedule": list(sched_taken), "pending": pend,
@@ -476,7 +493,9 @@ class Explorer:
             self.visited = set()
             self.outcomes = {}
             self._explore_once()
-            if not self.fp_grew or not self.use_ample or self.runs >= self.max_runs:
+            if not self.fp_grew or self.runs >= self.max_runs:
+                break
+            if not self.use_ample and not self.shared_tmp:
                 break
         return self
 
